@@ -477,6 +477,16 @@ fn compile_error_lines(ctx: &Ctx, report: &mut Report) -> usize {
             cases.push(("\n".repeat(pad - 1) + &lines.join("\n") + "\n", pad + 5, t.to_string()));
         }
     }
+    // after a string whose escape sequence runs into the end of its line (the escape is reported; the lines
+    // it swallowed still count): the stray token further down is reported on its own line
+    for esc in ["\\x", "\\xA", "\\u00", "\\u004", "\\U0000", "\\U000000"] {
+        for t in [")", "catch", "=="] {
+            let mut lines: Vec<String> = vec![format!("var broken = \"{}", esc), "\";".to_string()];
+            lines.extend(base.iter().map(|l| l.to_string()));
+            lines.insert(7, t.to_string());
+            cases.push((lines.join("\n") + "\n", 8, t.to_string()));
+        }
+    }
     let n = cases.len();
     let results = par_map(&ctx.runner_checked, ctx.workers.min(8), cases.into_iter(), |runner, _i, (src, line, tok)| {
         let mut req = Request { op: "compile".into(), snippets: vec![src.clone()], ..Default::default() };
@@ -487,6 +497,13 @@ fn compile_error_lines(ctx: &Ctx, report: &mut Report) -> usize {
                     let want = format!("[module \"main\", line {}] Error at '{}'", line, tok);
                     if kind != "CompileError" {
                         Some(format!("kind {}", kind))
+                    } else if src.starts_with("var broken") {
+                        // (the broken string is reported first; what it says is not compared)
+                        if messages.iter().skip(1).any(|m| m.starts_with(&want)) {
+                            None
+                        } else {
+                            Some(format!("no message after the first of {:?} starts with {:?}", messages, want))
+                        }
                     } else if !messages.get(0).map(|m| m.starts_with(&want)).unwrap_or(false) {
                         Some(format!("first message {:?} does not start with {:?}", messages.get(0), want))
                     } else {
@@ -625,7 +642,7 @@ pub fn run(ctx: &Ctx) -> Report {
     mcheck::fill_report(
         &mut report,
         &stats,
-        "R: every call chain of depth 0-3/4 over link kinds {function, method, static method, lambda, constructor, map callback, reduce callback, fiber body} with the failing statement (12 kinds: throws of 4 value kinds, 6 failing built-ins, throwing callees) at the bottom, in place, inside a module function or as a module body; one statement per line with padding so every line differs. Uncaught variant: class, text (where the model defines it), error kind and the full trace (one entry per active call, innermost first; library frames by name only) must equal M-eval's; caught variant: the handler sees the same class. The same with an earlier, completely handled exception (7 shapes: thrown and caught in place, thrown by a callee, thrown by a function of another module, raised by a built-in, caught after passing a finally block, caught in a loop, handled in another fiber that ran to its end) placed in each active frame of every chain up to depth 2/3 before the failing statement. The same with the call or failing statement at each position wrapped in one or two nested try/finally statements, so that the uncaught error passes through finally blocks (the report lists the calls still active when it is made, each with the line of the statement it was executing when the error was raised). Plus caught==uncaught on the implementation for 26 failing statements including host natives of every ErrorKind, compile-error lines for a stray token before every statement, and the same for a module that does not compile: every attempt to import it (seven placements in one program, then two more programs on the same interpreter) reports ImportError with the module's name, the line and the token; a missing module likewise. Plus the 240 programs of C08's family `recursion_from_a_finally_block` (one function active twice, the outer activation in its finally block with an outcome waiting): class, message and trace of the uncaught variants. Plus every fortieth program of the run-time families placed far down a long file - its first statement (and that of every module) on line 255, 256, 32766..32768, 65534..65537, 70000 and 131071 - and compile errors on such lines. non-trivial = a trace of at least two entries, or output.",
+        "R: every call chain of depth 0-3/4 over link kinds {function, method, static method, lambda, constructor, map callback, reduce callback, fiber body} with the failing statement (12 kinds: throws of 4 value kinds, 6 failing built-ins, throwing callees) at the bottom, in place, inside a module function or as a module body; one statement per line with padding so every line differs. Uncaught variant: class, text (where the model defines it), error kind and the full trace (one entry per active call, innermost first; library frames by name only) must equal M-eval's; caught variant: the handler sees the same class. The same with an earlier, completely handled exception (7 shapes: thrown and caught in place, thrown by a callee, thrown by a function of another module, raised by a built-in, caught after passing a finally block, caught in a loop, handled in another fiber that ran to its end) placed in each active frame of every chain up to depth 2/3 before the failing statement. The same with the call or failing statement at each position wrapped in one or two nested try/finally statements, so that the uncaught error passes through finally blocks (the report lists the calls still active when it is made, each with the line of the statement it was executing when the error was raised). Plus caught==uncaught on the implementation for 26 failing statements including host natives of every ErrorKind, compile-error lines for a stray token before every statement, and the same for a module that does not compile: every attempt to import it (seven placements in one program, then two more programs on the same interpreter) reports ImportError with the module's name, the line and the token; a missing module likewise. Plus the 240 programs of C08's family `recursion_from_a_finally_block` (one function active twice, the outer activation in its finally block with an outcome waiting): class, message and trace of the uncaught variants. Plus every fortieth program of the run-time families placed far down a long file - its first statement (and that of every module) on line 255, 256, 32766..32768, 65534..65537, 70000 and 131071 - and compile errors on such lines, and compile errors further down a file whose first string has an escape sequence cut off by the end of its line. non-trivial = a trace of at least two entries, or output.",
         json!({"chain_depth": if thorough { 4 } else { 3 }, "link_kinds": LINKS.len(), "failing_statements": FAILS.len()}),
     );
     let (n_ceq, _bad) = caught_equals_uncaught(ctx, &mut report);
